@@ -304,9 +304,12 @@ class ItemRun:
             self.defects.append(("edit-roundtrip-width", failing[0] + (" (and %d more settings)" % (len(failing) - 1) if len(failing) > 1 else "")))
         # -- file round trip
         try:
-            theory.thy = copy.copy(old_thy)
+            # holpy writes a file from the loaded theory (the item's own constants exist when it is printed) and
+            # reads it back item by item (the item is parsed in the theory before it)
+            theory.thy = new_thy
             js = item.export_json()
             js = json.loads(json.dumps(js, ensure_ascii=False, sort_keys=True))   # what the file holds
+            theory.thy = copy.copy(old_thy)
             item3 = items.parse_item(js)
             if item3.error is not None:
                 self.defects.append(("json-roundtrip", "parse_item(export_json()) fails: %s: %s" % (
